@@ -156,11 +156,17 @@ def decode(exe, tables):
 
 
 def representable(table, flavour):
+    """Does the assembler reproduce exactly this table?  (cached next to the built object)"""
     try:
         exe = build([table], flavour)
     except vlib.ToolError:
         return False
-    return decode(exe, [table])[0] is not None
+    mark = exe.parent / "representable.json"
+    if mark.exists():
+        return json.loads(mark.read_text())["ok"]
+    ok = decode(exe, [table])[0] is not None
+    mark.write_text(json.dumps({"ok": ok}))
+    return ok
 
 
 def run_tables(rep, exe_harness, witnesses, flavour, totals, only=None):
